@@ -303,6 +303,12 @@ func (x *Exec) symbolic(st *State, name string, t types.Type) SVal {
 	if _, ok := isMap(t); ok {
 		return SVal{K: KMap, Loc: "map@" + name, GoT: t, Src: name}
 	}
+	if pt, ok := t.Underlying().(*types.Pointer); ok {
+		if _, isSt := pt.Elem().Underlying().(*types.Struct); isSt && !isOpaqueStruct(pt.Elem()) {
+			// a pointer to a struct we track: the object is named after the variable holding the pointer
+			return SVal{K: KLoc, Loc: name, GoT: t, Src: name}
+		}
+	}
 	switch sortOf(t) {
 	case "Int":
 		c := q(x.D.constOf(name, "Int"))
@@ -512,7 +518,24 @@ func (x *Exec) valEq(st *State, a, b SVal) string {
 		return eq(b.Len, "0")
 	}
 	ta, tb := x.termOf(st, a), x.termOf(st, b)
-	if x.sortOfVal(a) != x.sortOfVal(b) {
+	sa, sb := x.sortOfVal(a), x.sortOfVal(b)
+	if sa != sb {
+		// an integer / boolean compared with its boxed (interface) form
+		box := func(t, s string) string {
+			if s == "Int" {
+				return x.D.app("box!int", []string{t}, []string{"Int"}, "U")
+			}
+			if s == "Bool" {
+				return x.D.app("box!bool", []string{t}, []string{"Bool"}, "U")
+			}
+			return t
+		}
+		if sa == "U" && sb != "U" {
+			return eq(ta, box(tb, sb))
+		}
+		if sb == "U" && sa != "U" {
+			return eq(box(ta, sa), tb)
+		}
 		return "false"
 	}
 	return eq(ta, tb)
